@@ -6,6 +6,8 @@ import multiprocessing as mp
 VERIF = os.path.dirname(os.path.dirname(os.path.abspath(__file__)))
 REPO = os.environ.get("VERIF_REPO", "/repo")
 RUN = os.path.join(VERIF, "run")
+# the build variant the monitors run on; "cov" (vf/covreport.py) measures what the workloads reach, its verdicts are not used
+VARIANT = os.environ.get("VERIF_VARIANT", "asan")
 NCPU = int(os.environ.get("VERIF_JOBS", "16"))
 
 ASAN_ENV = {
@@ -70,8 +72,8 @@ def innermost_repo_frame(text):
 class Driver:
     """One zwdrv child.  Not thread safe; one per worker process."""
 
-    def __init__(self, variant="asan", leaks=False, extra_env=None, wrapper=None, slow_unwind=False):
-        self.variant, self.leaks, self.extra_env, self.wrapper = variant, leaks, extra_env or {}, wrapper
+    def __init__(self, variant=None, leaks=False, extra_env=None, wrapper=None, slow_unwind=False):
+        self.variant, self.leaks, self.extra_env, self.wrapper = variant or VARIANT, leaks, extra_env or {}, wrapper
         self.slow_unwind = slow_unwind
         self.p = None
         self.errf = None
@@ -114,6 +116,13 @@ class Driver:
 
     def kill(self):
         if self.p is not None:
+            if self.variant == "cov":
+                # let the process write its coverage counters
+                try:
+                    self.p.stdin.write(b"quit\n"); self.p.stdin.close()
+                    self.p.wait(timeout=20)
+                except Exception:
+                    pass
             try:
                 self.p.kill()
                 self.p.wait()
@@ -371,8 +380,10 @@ class Check:
               "violations": self._nviol}
         self.cov["known_findings_matched"] = dict(self.known_hits)
         self.cov["inconclusive"] = self.inconclusive[:20]
-        os.makedirs(os.path.join(VERIF, "evidence"), exist_ok=True)
-        with open(os.path.join(VERIF, "evidence", self.pid + ".json"), "w") as f:
+        # only runs on the sanitizer build produce evidence; coverage-measurement runs (VERIF_VARIANT=cov) keep theirs apart
+        evdir = os.path.join(VERIF, "evidence") if VARIANT == "asan" else os.path.join(RUN, "evidence-" + VARIANT)
+        os.makedirs(evdir, exist_ok=True)
+        with open(os.path.join(evdir, self.pid + ".json"), "w") as f:
             json.dump(ev, f, indent=1, default=str)
         for key, path in self.violations:
             print("VIOLATION property=%s replay=%s" % (self.pid, path))
